@@ -390,6 +390,7 @@ def run(ctx, prop="C17"):
                         ctx.violation("C17.R8", f"{f_.qualname}: no per-interpreter quantity", f_.where(cs.node), f"{f_.qualname}: {norm(cs.node)[:80]}", f"`{cs.external}(..)` differs from one interpreter to the next (hash salt, addresses, pid): the same call gives another result in a fresh interpreter", positive=True)
                 else:
                     ctx.holds("C17.R8", f"{f_.qualname}: no per-interpreter quantity", f_.where())
+        ctx.borrow("C07", {"C07.R1": "C17.R9"}, "a call that fails midway must leave nothing behind that changes what later calls produce: the bytes of a half-written record left in the writer's pending block become part of the next block")
         ctx.borrow("C18", {"C18.R4": "C17.R7"}, "a changed interpreter- or process-wide setting is state kept across calls: the next operation, of any caller, runs under it")
 
 
